@@ -28,6 +28,15 @@ class InlineLib(Hooks):
         return ex.depth < 8
 
 
+def _file_local(f):
+    """a helper with internal linkage (static, not a member): part of the implementation of whoever calls it"""
+    return bool(f.get("static")) and not f.get("record")
+
+
+# "the function on its own": nothing inlined except its file-local static helpers
+LOCAL_HELPERS = InlineLib(only=_file_local)
+
+
 def _is_assert_failure(effs):
     real = [y for y in effs if y["e"] not in ("exit",)]
     return len(real) == 1 and real[0]["e"] == "call" and real[0].get("noreturn") and "assert" in real[0]["name"]
@@ -203,4 +212,40 @@ def fold_accumulators(ps):
             out = new
             changed = True
             break
+    return out
+
+
+def forward_stored_calls(ps):
+    """`T x = f(..); *dst = x; ... use(x)`  ->  `*dst = f(..); ... use(*dst)`: a call result that is stored to memory and
+    also used directly is rewritten, in the later statements of the same loop nest, to a load of the location it was
+    stored to.  Applies only when the function makes that call at exactly one site (so that every occurrence of the
+    term denotes the one evaluation of the current iteration) and the location is written by no other statement."""
+    out = list(ps)
+    nsites = {}
+    for p in ps:
+        if p["kind"] == "call" and p.get("eff") and p["eff"].get("ret") is not None:
+            nsites[p["eff"]["ret"]] = nsites.get(p["eff"]["ret"], 0) + 1
+    for k, p in enumerate(ps):
+        if p["kind"] != "store" or p["op"] != "=" or p.get("byref"):
+            continue
+        V = p["val"]
+        if not (isinstance(V, tuple) and V and V[0] == "call") or nsites.get(V) != 1:
+            continue
+        if sum(1 for q in ps if q["kind"] == "store" and q["lv"] == p["lv"]) != 1:
+            continue
+        for j in range(k + 1, len(out)):
+            q = out[j]
+            if q["loops"][:len(p["loops"])] != p["loops"] or q["kind"] == "call" and q.get("eff") and q["eff"].get("ret") == V:
+                continue
+            r = None
+            for fld_ in ("val", "lv"):
+                t = q.get(fld_)
+                if t is not None and isinstance(t, tuple) and sym.contains(t, V):
+                    r = r or dict(q)
+                    r[fld_] = sym.subst(t, {V: p["lv"]})
+            if q.get("args") and any(a is not None and isinstance(a, tuple) and sym.contains(a, V) for a in q["args"]):
+                r = r or dict(q)
+                r["args"] = [sym.subst(a, {V: p["lv"]}) if a is not None and isinstance(a, tuple) else a for a in q["args"]]
+            if r is not None:
+                out[j] = r
     return out
